@@ -310,6 +310,10 @@ func c07Run(r *core.Run, sc c07Scen, mode string, k, n int, sig string, seed int
 		c.world.Resolve("m0", c.meltH, sc.final != "failed")
 	}
 	// ---- restart
+	keysLive := ""
+	if inj.Fired == nil && opErr == nil {
+		keysLive = c07Keysets(c.env) // what the running mint reports after the completed operation
+	}
 	dir, world := c.env.Dir, c.world
 	if mode == "crash" {
 		c.env.Abandon()
@@ -335,6 +339,9 @@ func c07Run(r *core.Run, sc c07Scen, mode string, k, n int, sig string, seed int
 	}
 	if sc.kind != "rotate" && keysAfter != c.keysBefore {
 		viol("keysets", "keysets changed: before "+c.keysBefore+" after "+keysAfter)
+	}
+	if keysLive != "" && keysAfter != keysLive {
+		viol("keysets", "keysets after the restart differ from those the running mint reported after the completed operation: before "+keysLive+" after "+keysAfter)
 	}
 	if sc.kind == "rotate" {
 		for _, row := range strings.Split(c.keysBefore, ";") {
